@@ -34,7 +34,11 @@ Variable fallback : rule.
 Inductive cb_result :=
 | CbRule (r : rule)
 | CbUncacheable (ra : N) (rg : regs)
-| CbErr (rg : regs)            (* regs because the PE generic path writes before it can fail *)
+| CbErr (rg : regs)            (* error that does not depend on this call's registers/stack:
+                                  the fallback rule is cached *)
+| CbErrV (rg : regs)           (* error caused by this call's registers/stack (fix for S7): the
+                                  fallback runs but is not cached; regs because the PE generic
+                                  path writes registers before it can fail *)
 | CbPanic (s : site)
 | CbHang.
 
@@ -76,52 +80,56 @@ Definition cache_insert (c : cache) (slot a g : N) (r : rule) : cache :=
   mkcache (fun s => if s =? slot then Some (mkentry a g r) else slots c s) (cstats c).
 
 (* ---------- module list (sorted by mstart) ---------- *)
-(* binary_search_by_key, by its contract on sorted duplicate-free keys: Ok i / Err insertion *)
-Fixpoint bsearch (l : list module) (key : N) (i : nat) : bool * nat :=
+(* Vec::binary_search_by_key + insert / remove / index, by the contract of binary search on a
+   list sorted by duplicate-free keys: Ok(i) for the element with the key, Err(i) with i the
+   insertion point.  The three users are written as direct recursions over the sorted list. *)
+
+(* add_module: insert at Ok(i) / Err(i) *)
+Fixpoint mods_add (l : list module) (m : module) : list module :=
   match l with
-  | [] => (false, i)
-  | m :: t => if mstart m =? key then (true, i)
-              else if key <? mstart m then (false, i)
-              else bsearch t key (S i)
+  | [] => [m]
+  | x :: t => if mstart x =? mstart m then m :: x :: t
+              else if mstart m <? mstart x then m :: x :: t
+              else x :: mods_add t m
   end.
 
-Fixpoint insert_at {A} (l : list A) (i : nat) (x : A) : list A :=
-  match i, l with
-  | O, _ => x :: l
-  | S k, [] => [x]
-  | S k, y :: t => y :: insert_at t k x
+(* remove_module: only when the search returns Ok(i) *)
+Fixpoint mods_remove (l : list module) (start : N) : option (list module) :=
+  match l with
+  | [] => None
+  | x :: t => if mstart x =? start then Some t
+              else if start <? mstart x then None
+              else match mods_remove t start with
+                   | Some t' => Some (x :: t')
+                   | None => None
+                   end
   end.
 
-Fixpoint remove_at {A} (l : list A) (i : nat) : list A :=
-  match i, l with
-  | _, [] => []
-  | O, _ :: t => t
-  | S k, y :: t => y :: remove_at t k
+(* modules.last().map_or(0, |m| m.avma_range.end) *)
+Fixpoint mods_max (l : list module) : N :=
+  match l with
+  | [] => 0
+  | m :: t => match t with [] => mend m | _ => mods_max t end
   end.
 
-Definition mods_add (l : list module) (m : module) : list module :=
-  let '(_, i) := bsearch l (mstart m) 0 in insert_at l i m.
+(* find_module_for_address, first half: Ok(i) -> modules[i]; Err(0) -> None;
+   Err(i) -> modules[i-1] unless its end <= address *)
+Definition check_end (prev : option module) (a : N) : option module :=
+  match prev with
+  | Some p => if mend p <=? a then None else Some p
+  | None => None
+  end.
 
-Definition mods_remove (l : list module) (start : N) : option (list module) :=
-  let '(found, i) := bsearch l start 0 in
-  if found then Some (remove_at l i) else None.
+Fixpoint find_cand (l : list module) (a : N) (prev : option module) : option module :=
+  match l with
+  | [] => check_end prev a
+  | x :: t => if mstart x =? a then Some x
+              else if a <? mstart x then check_end prev a
+              else find_cand t a (Some x)
+  end.
 
-Definition mods_max (l : list module) : N :=
-  match last (map Some l) None with Some m => mend m | None => 0 end.
-
-(* find_module_for_address *)
 Definition find_module (l : list module) (a : N) : res (option (module * N)) :=
-  let '(found, i) := bsearch l a 0 in
-  let cand :=
-    if found then nth_error l i
-    else match i with
-         | O => None
-         | S k => match nth_error l k with
-                  | Some m => if mend m <=? a then None else Some m
-                  | None => None
-                  end
-         end in
-  match cand with
+  match find_cand l a None with
   | None => Ok None
   | Some m =>
     if a <? base_avma m then Ok None
@@ -156,6 +164,8 @@ Definition unwind_frame (u : unwinder) (c : cache) (a : faddr) (rg : regs) (m : 
         | (CbErr rg1, ef) =>
           let c2 := cache_insert c1 slot x (gen u) fallback in
           let '(o, rg') := exec fallback first rg1 m in mkout o rg' c2 ef
+        | (CbErrV rg1, ef) =>
+          let '(o, rg') := exec fallback first rg1 m in mkout o rg' c1 ef
         | (CbPanic s, ef) => mkout (Panic s) rg c1 ef
         | (CbHang, ef) => mkout Hang rg c1 ef
         end
@@ -287,6 +297,7 @@ End Generic.
 Arguments CbRule {rule regs} r.
 Arguments CbUncacheable {rule regs} ra rg.
 Arguments CbErr {rule regs} rg.
+Arguments CbErrV {rule regs} rg.
 Arguments CbPanic {rule regs} s.
 Arguments CbHang {rule regs}.
 Arguments mkmod {mdata}.
